@@ -18,7 +18,7 @@ type Workload struct {
 	Batches  []int     `json:"batches"`
 	PageSize int       `json:"page_size"`
 	Codec    int       `json:"codec"`
-	Pending  int       `json:"pending_at_close,omitempty"` // C09 only: records added after the last Write, before Close
+	Pending  int       `json:"pending_at_close,omitempty"` // C02/C09: records added after the last Write, before Close (never written)
 }
 
 type wlCfg struct {
@@ -46,7 +46,8 @@ func genWorkload(t *rapid.T, cfg wlCfg) *Workload {
 	// (rapid biases integer draws towards the ends of a range; a window in the middle is hit with about the nominal probability)
 	if b := rapid.IntRange(0, 99).Draw(t, "big?"); cfg.bigPct > 0 && b >= 50 && b < 50+cfg.bigPct {
 		g := cfg.gen
-		g.LongList, g.MaxList, g.LongStr, g.MaxStr = 0, 2, 0, 40
+		g.LongList, g.MaxList, g.LongStr, g.MaxStr, g.UniformStr = 0, 2, 0, 48, true
+		g.NullPct = rapid.SampledFrom([]int{0, 33, 100}).Draw(t, "bigNullPct") // 0 / 100: level runs as long as the page
 		if fx.Has("big") {
 			w.Fixture = "big"
 			f = fx.Get("big")
@@ -54,7 +55,11 @@ func genWorkload(t *rapid.T, cfg wlCfg) *Workload {
 		if rapid.Bool().Draw(t, "bigKind") {
 			// one big page
 			n := rapid.IntRange(2000, 4000).Draw(t, "bigN")
-			w.PageSize = 10000
+			if rapid.IntRange(0, 3).Draw(t, "bigger") == 2 {
+				n = rapid.IntRange(8200, 9000).Draw(t, "biggerN") // level runs beyond 8192 (three-byte run headers)
+			}
+			// page size 0 = the writer's default (MaxPageSize not passed): 1000 records per page
+			w.PageSize = rapid.SampledFrom([]int{10000, 10000, 1000, 700, 0}).Draw(t, "bigPage")
 			for i := 0; i < n; i++ {
 				w.Records = append(w.Records, vt.GenRecord(t, f.Root, g))
 			}
@@ -117,10 +122,10 @@ func (w *Workload) labels() []string {
 	}
 	mp := false
 	for _, b := range w.Batches {
-		if b > w.PageSize {
+		if b > w.effPage() {
 			mp = true
 		}
-		if b == w.PageSize || b == w.PageSize+1 || b == 2*w.PageSize {
+		if b == w.effPage() || b == w.effPage()+1 || b == 2*w.effPage() {
 			l = append(l, "batch=k*page(+1)")
 		}
 	}
@@ -133,10 +138,18 @@ func (w *Workload) labels() []string {
 	if len(w.Batches) >= 300 {
 		l = append(l, "big:>=300-row-groups")
 	}
-	if w.PageSize == 10000 {
-		l = append(l, "big:page-of-2000..5000-records")
+	if w.Fixture == "big" && len(w.Batches) <= 2 {
+		l = append(l, fmt.Sprintf("big:2000..4000-records-page-size-%d", w.PageSize))
 	}
 	return l
+}
+
+// effPage is the page size in effect (0 means the writer's documented default of 1000).
+func (w *Workload) effPage() int {
+	if w.PageSize <= 0 {
+		return 1000
+	}
+	return w.PageSize
 }
 
 func (w *Workload) nontrivial() bool {
@@ -147,7 +160,7 @@ func (w *Workload) nontrivial() bool {
 		return true
 	}
 	for _, b := range w.Batches {
-		if b > w.PageSize {
+		if b > w.effPage() {
 			return true
 		}
 	}
@@ -190,6 +203,10 @@ func writeWorkload(w *Workload, prop string, mutate bool) ([]byte, *Outcome) {
 		if err := pw.Write(); err != nil {
 			return nil, viol(prop+"/writer-error", "Write #%d: %v", bi, err)
 		}
+	}
+	for j := 0; j < w.Pending; j++ {
+		pw.Add(vt.Build(f.Root, w.Records[i], true).Interface())
+		i++
 	}
 	if err := pw.Close(); err != nil {
 		return nil, viol(prop+"/writer-error", "Close: %v", err)
